@@ -134,10 +134,11 @@ func finish(prop, tier string, results []*harnessResult, known map[string]bool, 
 			add(r, "violation", v.Tag, v.Inputs, v, nil)
 		}
 		for _, v := range r.h.Known {
-			if seen["k"+v.Region+v.Tag] >= 1 {
+			if seen["k"+v.Region+v.Tag] >= 1 || seen["kr"+v.Region] >= 4 {
 				continue
 			}
 			seen["k"+v.Region+v.Tag]++
+			seen["kr"+v.Region]++
 			add(r, "known", v.Tag, v.Inputs, v, nil)
 		}
 		var tags []string
@@ -228,17 +229,30 @@ func finish(prop, tier string, results []*harnessResult, known map[string]bool, 
 				inconclusive(fmt.Sprintf("counterexample for %s/%s did not reproduce natively (%s); model at %s", p.c.Harness, p.v.Tag, p.v.Replayed, path))
 			}
 		case "known":
-			if !doReplay || p.v.Replayed == "reproduced" {
-				key := p.v.Region
-				if !knownPrinted[key] {
-					knownPrinted[key] = true
-					lines = append(lines, fmt.Sprintf("KNOWN-FINDING: property=%s %s %s (harness %s, assertion %s)", prop, strings.SplitN(p.v.Region, "/", 2)[1], knownDescription(p.v.Region), p.c.Harness, p.v.Tag))
-				}
-			} else {
-				inconclusive(fmt.Sprintf("known-finding counterexample %s in %s/%s did not reproduce natively (%s)", p.v.Region, p.c.Harness, p.v.Tag, p.v.Replayed))
-			}
+			// handled below: one reproduced counterexample per region suffices
 		}
 	}
+	knownRepro := map[string]*pending{}
+	knownAny := map[string]*pending{}
+	for _, p := range all {
+		if p.c.Kind != "known" {
+			continue
+		}
+		if knownAny[p.v.Region] == nil {
+			knownAny[p.v.Region] = p
+		}
+		if (!doReplay || p.v.Replayed == "reproduced") && knownRepro[p.v.Region] == nil {
+			knownRepro[p.v.Region] = p
+		}
+	}
+	for region, p := range knownAny {
+		if q := knownRepro[region]; q != nil {
+			lines = append(lines, fmt.Sprintf("KNOWN-FINDING: property=%s %s %s (harness %s, assertion %s)", prop, strings.SplitN(region, "/", 2)[1], knownDescription(region), q.c.Harness, q.v.Tag))
+		} else {
+			inconclusive(fmt.Sprintf("known-finding counterexample %s in %s/%s did not reproduce natively (%s)", region, p.c.Harness, p.v.Tag, p.v.Replayed))
+		}
+	}
+	_ = knownPrinted
 	states, transitions, obligations, discharged, queries := 0, int64(0), 0, 0, 0
 	var solverTime float64
 	funcs := map[string]bool{}
